@@ -396,7 +396,7 @@ pub fn run(tier: Tier, seed: u64, replay: Option<&std::path::Path>) -> i32 {
     }
     let cases = match tier {
         Tier::Quick => 2400,
-        Tier::Thorough => 12_000,
+        Tier::Thorough => 40_000,
     };
     let out = run_sharded("C20", seed, cases, 300, strategy, run_case);
     let report = Report {
